@@ -81,7 +81,13 @@ static const short CW[] = { FORMAT_HTML, FORMAT_LATEX, FORMAT_FODT, FORMAT_OPML 
 static int KMAX = 32;
 static uint64_t measure(const unsigned char *seed, size_t n, long k, int fmt) {
 	DString *d = d_string_new("");
-	for (long i = 0; i < k; i++) d_string_append_c_array(d, (const char *)seed, n);
+	/* "prefix \x01 unit \x01 suffix": the unit is repeated, prefix and suffix (definitions, a table head, a fence) appear once */
+	const unsigned char *m1 = memchr(seed, 1, n), *m2 = m1 ? memchr(m1 + 1, 1, n - (m1 + 1 - seed)) : NULL;
+	if (m1 && m2) {
+		d_string_append_c_array(d, (const char *)seed, m1 - seed);
+		for (long i = 0; i < k; i++) d_string_append_c_array(d, (const char *)m1 + 1, m2 - m1 - 1);
+		d_string_append_c_array(d, (const char *)m2 + 1, n - (m2 + 1 - seed));
+	} else for (long i = 0; i < k; i++) d_string_append_c_array(d, (const char *)seed, n);
 	POOL_INIT(); srand(1);
 	cost = 0; counting = 1;
 	char *out = mmd_string_convert(d->str, EXT_DEFAULT, fmt, 0);
@@ -97,7 +103,8 @@ static void run_cost(uint64_t i) {
 	/* sizes: the smallest power of two k0 with k0*|d| >= 32 kB, then 2*k0, 4*k0 (8*k0 thorough): large enough to be past
 	   fixed-size look-back windows (kLargeStackThreshold = 1000 tokens); the verdict is on the LAST doubling (asymptotic behaviour),
 	   all ratios are reported */
-	long k0 = 8; while (k0 * (long)f->n < 32768) k0 *= 2;
+	long unit = (long)f->n; { const unsigned char *m1 = memchr(f->s, 1, f->n), *m2 = m1 ? memchr(m1 + 1, 1, f->n - (m1 + 1 - f->s)) : NULL; if (m1 && m2) unit = m2 - m1 - 1; }
+	long k0 = 8; while (k0 * unit < 32768) k0 *= 2;
 	uint64_t prev = measure(f->s, f->n, k0, CW[wi]); double last = 0, worst = 0; long lastk = 0; char all[128] = ""; size_t al = 0;
 	int steps = KMAX > 32 ? 3 : 2;
 	for (long k = k0 * 2, st = 0; st < steps; k *= 2, st++) {
